@@ -45,6 +45,33 @@ deriving DecidableEq, Repr
 def aggIter (k : Kind) (n m : Nat) : List Gen :=
   (List.range m).flatMap (fun party => (List.range n).map (fun idx => ⟨k, party, idx⟩))
 
+/-- `AggregatedGensIter` as coded (src/generators/aggregated_gens_iter.rs): the state is `(party_idx, gen_idx)`;
+    an item is named by its (party, index). `usize` overflow of the two counters is not modelled. -/
+structure It where
+  n : Nat
+  m : Nat
+  party : Nat
+  gen : Nat
+deriving Repr, DecidableEq
+
+def It.start (n m : Nat) : It := ⟨n, m, 0, 0⟩
+
+def It.next (s : It) : It × Option (Nat × Nat) :=
+  let s1 : It := if s.gen ≥ s.n then { s with gen := 0, party := s.party + 1 } else s
+  if s1.party ≥ s1.m then (s1, none) else ({ s1 with gen := s1.gen + 1 }, some (s1.party, s1.gen))
+
+/-- `size_hint` (lower = upper bound) -/
+def It.sizeHint (s : It) : Nat := s.n * (s.m - s.party) - s.gen
+
+/-- `Iterator::nth` as the standard library derives it from `next`: `k` items are dropped (stopping at the first
+    `None`), then one more call -/
+def It.nth : Nat → It → It × Option (Nat × Nat)
+  | 0, s => s.next
+  | k + 1, s =>
+    match s.next with
+    | (s', none) => (s', none)
+    | (s', some _) => It.nth k s'
+
 /-- order of the precomputed table: `g_vec` flattened interleaved with `h_vec` flattened -/
 def interleave {α : Type} : List α → List α → List α
   | x :: xs, y :: ys => x :: y :: interleave xs ys
